@@ -28,6 +28,10 @@ RULES = {
 }
 
 
+def SOME(x):
+    return ("variant", OPTION, "Some", (("0", x),))
+
+
 def group_reads(t):
     """(kind, term) for every cross-contract read inside t: raw Map/Item::query (live) or smart queries"""
     out = []
@@ -77,7 +81,7 @@ def run(ctx):
                         sh = field_of(prop.value, "start_height")
                         ctx.ob("R06.3", key + "/start_height", sh == HEIGHT, sites=[prop.site],
                                detail="start_height is %s, not env.block.height" % show(sh)[:100], sample={"start_height": show(sh)})
-                        check_creation_weight(ctx, key, crate, e, prop, W, VOTERS)
+                        check_creation_weight(ctx, key, crate, e, prop, W, VOTERS, p)
                         continue
                     # a vote
                     n_vote += 1
@@ -160,7 +164,7 @@ def run(ctx):
                detail="%s writes VOTERS/CONFIG after instantiation" % name, sample={"writes": 0})
 
 
-def check_creation_weight(ctx, key, crate, ballot, prop, W, VOTERS):
+def check_creation_weight(ctx, key, crate, ballot, prop, W, VOTERS, p=None):
     votes = field_of(prop.value, "votes")
     tw = field_of(prop.value, "total_weight")
     if crate == "cw3_fixed_multisig":
@@ -174,6 +178,19 @@ def check_creation_weight(ctx, key, crate, ballot, prop, W, VOTERS):
     sh = field_of(prop.value, "start_height")
     for what, term in (("proposer weight", W), ("total weight", tw)):
         reads = group_reads(term)
+        if not reads and what == "proposer weight" and p is not None and (term[0] == "default" or term == ("lit", 0)):
+            # the one zero-weight ballot the property allows: a proposer whom the snapshot read found without (voting) weight
+            absent = [c for c in p.conds if c[1] == "None" and any(r[0] == "smart" and r[2] in (sh, HEIGHT, SOME(sh), SOME(HEIGHT))
+                                                                   for r in group_reads(c[0]))]
+            def snap(t):
+                return any(r[0] == "smart" and r[2] in (sh, HEIGHT, SOME(sh), SOME(HEIGHT)) for r in group_reads(t))
+            from ..idioms import order_facts
+            zero = [c for lo, hi, strict, c in order_facts(p.conds) if snap(lo) and ((hi == ("lit", 1) and strict) or (hi == ("lit", 0) and not strict))]
+            absent = absent or zero
+            ctx.ob("R06.4", key + "/proposer weight zero when absent from the snapshot", bool(absent), sites=[prop.site],
+                   detail="proposer's ballot weighs 0 without the snapshot read having found no weight for the proposer",
+                   sample={"weight": show(term)[:60]})
+            continue
         if not reads:
             ctx.ob("R06.4", key + "/" + what, False, detail="%s %s does not come from the group" % (what, show(term)[:160]), sites=[prop.site])
             continue
@@ -184,7 +201,7 @@ def check_creation_weight(ctx, key, crate, ballot, prop, W, VOTERS):
                               "snapshot: a membership change earlier in the same block makes ballot/total disagree with the snapshot"
                               % (what, show(r[1])[:160]))
             else:
-                ctx.ob("R06.4", "%s/%s at snapshot" % (key, what), r[2] == sh or r[2] == HEIGHT, sites=[prop.site],
+                ctx.ob("R06.4", "%s/%s at snapshot" % (key, what), r[2] in (sh, HEIGHT, SOME(sh), SOME(HEIGHT)), sites=[prop.site],
                        detail="%s read at height %s, not at the proposal's start height" % (what, show(r[2])[:100]),
                        sample={"read": show(r[1])[:200]})
 
